@@ -249,7 +249,7 @@ func c08modeName(reuse bool) string {
 //	sync-histogram  3,2,2                3,3,3   (2 shards)    3,2,2
 //	sync-expohist   3,2,2                3,2,2   (4 shards)    2,2,1
 //	sync-gauge      3,3,3                3,3,3,3               3,3,3
-//	async           2,1,1                3,2,2   (2 shards)    2,2,2
+//	async           2,1,1                3,2,2,2               2,2,2,2
 //	mixed           2,1                  2,1,1   (2 shards)    2,1,1  (2 shards)
 func c08jobs(thorough bool) []*c08job {
 	var jobs []*c08job
@@ -323,7 +323,7 @@ func c08jobs(thorough bool) []*c08job {
 				} else {
 					j.sigmas = c08sigmas([]float64{one, 3})
 				}
-				b := pick(reuse, bnd{[]int{2, 1, 1}, 1}, bnd{[]int{3, 2, 2}, 2}, bnd{[]int{2, 2, 2}, 1})
+				b := pick(reuse, bnd{[]int{2, 1, 1}, 1}, bnd{[]int{3, 2, 2, 2}, 1}, bnd{[]int{2, 2, 2, 2}, 1})
 				j.perCycle = b.per
 				add(j, b.shards)
 			}
